@@ -18,5 +18,14 @@ struct Term
     virtual long cursor() = 0; // -1 when not accessible
     virtual const char *name() = 0;
 };
+// the C++ line editor used on its own (igris::readline of readlinexx.h): typed bytes in, linecpy out
+struct XReadline
+{
+    virtual ~XReadline() {}
+    virtual void init(unsigned cap, unsigned hist) = 0;
+    virtual int key(int c) = 0;
+    virtual int linecpy(char *dst, unsigned long size) = 0;
+};
+XReadline *make_xreadline();
 Term *make_term_c();
 Term *make_term_xx();
